@@ -2422,7 +2422,7 @@ def struct_pack(fmt, v):
 import glob as glob_mod
 C04_THEOREMS = ['Blf.Props.C04_container', 'Blf.Props.C04_file_layout', 'Blf.Props.C04_payload_is_stream', 'Blf.Props.C04_full_containers', 'Blf.Props.C04_container_sizes', 'Blf.Props.C04_stored_inflates']
 C05_THEOREMS = ['Blf.Props.C05_uncompressed_size', 'Blf.Props.C05_object_count', 'Blf.Props.C05_file_size', 'Blf.Props.C05_restore_point_offset', 'Blf.Props.C05_caller_fields_verbatim', 'Blf.Props.C05_reader_counters', 'Blf.Props.C05_count_matches']
-C08_THEOREMS = ['Blf.Props.C08_stream_prefix', 'Blf.Props.C08_monotone', 'Blf.Props.C08_cut_object_dropped']
+C08_THEOREMS = ['Blf.Props.C08_stream_prefix', 'Blf.Props.C08_monotone', 'Blf.Props.C08_cut_object_dropped', 'Blf.Props.C08_file_prefix', 'Blf.Props.C08_file_monotone']
 C09_THEOREMS = ['Blf.Props.C09_search_finds_first_signature', 'Blf.Props.C09_stream_with_filler_and_unknown_objects', 'Blf.sync_finds_first']
 C10_THEOREMS = ['Blf.Props.C10_decoder_memory_safe', 'Blf.Props.C10_read_session_ends_without_ub', 'Blf.Props.C10_parser_progress']
 
